@@ -11,6 +11,7 @@ import (
 	"os"
 	"path/filepath"
 	"sort"
+	"strings"
 	"sync"
 	"time"
 
@@ -74,6 +75,9 @@ type NetPlan struct {
 	MaxBlkSize int    `json:"max_block_size,omitempty"`
 	Restart    []Span `json:"restart,omitempty"` // observer restarts (node index, at FromMS)
 	TailSeed   uint64 `json:"tail_seed"`         // seeds the decision stream once the explicit tape is used up
+	// Election: all six accounts register as candidates and everybody votes (at about 3 s and 5.5 s), so that committee
+	// and validators change at an epoch boundary; validator i's wallet also holds account 2+i, which wins a seat
+	Election bool `json:"election,omitempty"`
 	// HealMS: after DurationMS of a faulty run every fault stops (no loss, no silence, no lateness, delays <= 240 ms;
 	// duplicates and reordering stay) for at most that long: the run ends as soon as every validator has gained two blocks
 	HealMS int `json:"heal_ms,omitempty"`
@@ -94,6 +98,9 @@ func drawNet(rt *rapid.T, p *Plan, prop, tier string) *Plan {
 	if prop == "C07" || prop == "C17" {
 		np.Sync = rapid.IntRange(0, 3).Draw(rt, "sync7") != 0
 		np.Observers = 1
+	}
+	if prop == "C17" && rapid.Bool().Draw(rt, "faulty17") {
+		np.Sync = false // view changes and recovery messages only exist in faulty runs
 	}
 	np.DupPM = rapid.IntRange(0, 3).Draw(rt, "dup") * 50
 	np.Relay = rapid.Bool().Draw(rt, "relay")
@@ -156,6 +163,9 @@ func drawNet(rt *rapid.T, p *Plan, prop, tier string) *Plan {
 		np.Restart = append(np.Restart, Span{Node: np.Validators, FromMS: rapid.IntRange(2000, np.DurationMS-1000).Draw(rt, "restartat")})
 	}
 	np.TailSeed = rapid.Uint64Range(0, 1<<40).Draw(rt, "tailseed")
+	if prop == "C19" && np.Validators == 4 && np.DurationMS >= 16000 && rapid.IntRange(0, 2).Draw(rt, "election") == 0 {
+		np.Election = true
+	}
 	if !np.Sync && np.CorruptPM == 0 && rapid.IntRange(0, 1).Draw(rt, "heal") == 1 {
 		np.HealMS = healWindowMS
 	}
@@ -256,6 +266,12 @@ type netSim struct {
 	onChainResubmitted map[util.Uint256]bool
 	conflictVictims    map[util.Uint256][]util.Uint256 // tx named by Conflicts attributes -> the naming transactions
 	namers             map[util.Uint256]bool
+	standby            string        // the standby validators (sorted), as printed
+	standbyKeys        []string      // standby validator key of node i
+	uncovered          bool          // the validators rotated to a set that the running nodes do not hold the keys of
+	lastBlockAt        time.Duration // when the latest height was first seen on any node
+	maxGap             time.Duration // longest time between two consecutive heights
+	rotatedAt          time.Duration // when the next block's validators first differed from the standby ones
 	healed             bool          // the fault-free phase after a faulty run has begun
 	healAt             time.Duration // when it began
 	healHeights        []uint32      // validators' heights at that moment
@@ -277,6 +293,9 @@ func (s *netSim) enqueue(from, to int, kind string, raw []byte, want []util.Uint
 	s.outbox = append(s.outbox, outMsg{from: from, seq: n.outSeq, sentAt: s.now(), to: to, kind: kind, raw: raw, want: want})
 	s.mu.Unlock()
 }
+
+// gapAssert: the "blocks keep being produced" oracle of synchronous runs raises (VERIF_GAP_ASSERT=0 only measures)
+var gapAssert = os.Getenv("VERIF_GAP_ASSERT") != "0"
 
 // healAssert: the bounded-liveness-after-faults oracle raises (VERIF_HEAL_ASSERT=0 only measures)
 var healAssert = os.Getenv("VERIF_HEAL_ASSERT") != "0"
@@ -393,6 +412,9 @@ func (s *netSim) flushOutbox() {
 			}
 			to := to
 			kind := m.kind
+			if !bytes.Equal(raw, m.raw) {
+				kind += "*" // altered on the wire
+			}
 			s.at(max(s.now(), m.sentAt+delay), func() { s.deliver(to, kind, raw) })
 			s.r.out.Probes["msg_scheduled"]++
 			if s.np.DupPM > 0 && tape.Chance(s.np.DupPM, 1000) {
@@ -441,9 +463,20 @@ func (s *netSim) deliver(to int, kind string, raw []byte) {
 	}
 	msg := &network.Message{StateRootInHeader: s.r.plan.Proto.StateRootInHeader}
 	var derr error
-	if pv := sim.Recover(func() { derr = msg.Decode(nio.NewBinReaderFromBuf(raw)) }); pv != nil {
+	var allocated uint64
+	if pv := sim.Recover(func() {
+		if strings.HasSuffix(kind, "*") {
+			derr, allocated = decodeMeasured(msg, raw)
+		} else {
+			derr = msg.Decode(nio.NewBinReaderFromBuf(raw))
+		}
+	}); pv != nil {
 		pv.Msg = fmt.Sprintf("decoding a %s message of %d bytes panicked: %s", kind, len(raw), pv.Msg)
 		s.r.violate(pv)
+		return
+	}
+	if allocated > maxDecodeAlloc {
+		s.r.violate(allocViolation(kind, len(raw), allocated))
 		return
 	}
 	if derr != nil {
@@ -459,6 +492,7 @@ func (s *netSim) deliver(to int, kind string, raw []byte) {
 		e := msg.Payload.(*payload.Extensible)
 		if s.r.prop == "C17" {
 			s.checkReencode(msg, raw)
+			s.checkConsensusPayload(e, strings.HasSuffix(kind, "*"))
 		}
 		ok, err := v.ext.Add(e)
 		if err != nil || !ok {
@@ -489,6 +523,9 @@ func (s *netSim) deliver(to int, kind string, raw []byte) {
 		s.submitTx(v, tx)
 	default:
 		s.r.out.Probes["wire_other_command"]++
+		if s.r.prop == "C17" {
+			s.checkReencode(msg, raw)
+		}
 	}
 }
 
@@ -564,6 +601,9 @@ func (s *netSim) submitTx(v *vnode, tx *transaction.Transaction) {
 		}
 	} else {
 		s.r.out.Probes["tx_not_pooled"]++
+		if netDebug {
+			s.r.log.Addf("  t=%dms node %d does not pool %s: %v", s.now()/time.Millisecond, v.idx, tx.Hash().StringLE()[:8], err)
+		}
 	}
 }
 
@@ -649,6 +689,61 @@ func decodeMsgBlock(raw []byte, srih bool) (*block.Block, error) {
 
 // checkAgreement: the safety oracle, evaluated after every driver event.
 func (s *netSim) checkAgreement() {
+	if s.np.Election && s.rotatedAt == 0 && s.standby != "" {
+		if v, err := s.nodes[0].n.BC.GetNextBlockValidators(); err == nil {
+			vv := keys.PublicKeys(v).Copy()
+			sort.Sort(vv)
+			if fmt.Sprint(vv) != s.standby {
+				s.rotatedAt = s.now()
+				s.r.out.Probes["net_validators_rotated"]++
+				// every validator key must be held by a running node (node i holds standby key i and account 2+i)
+				// for the liveness clauses to apply from here on
+				var who []string
+				nodesUsed := map[int]bool{}
+				for _, pk := range vv {
+					w := "?"
+					for i := 0; i < s.np.Validators; i++ {
+						if s.standbyKeys[i] == pk.StringCompressed() {
+							w = fmt.Sprintf("standby%d@n%d", i, i)
+							if nodesUsed[i] {
+								w += "(dup)"
+								s.uncovered = true
+							}
+							nodesUsed[i] = true
+						}
+					}
+					for a := 0; a < numAccounts; a++ {
+						if s.r.prod.kr.accts[a].PublicKey().StringCompressed() == pk.StringCompressed() {
+							w = fmt.Sprintf("a%d", a)
+							if a >= 2 && a-2 < s.np.Validators && !nodesUsed[a-2] {
+								w += fmt.Sprintf("@n%d", a-2)
+								nodesUsed[a-2] = true
+							} else {
+								s.uncovered = true
+							}
+						}
+					}
+					if w == "?" {
+						s.uncovered = true
+					}
+					who = append(who, w)
+				}
+				if s.uncovered {
+					s.r.out.Probes["net_rotation_to_keys_nobody_runs"]++
+					if enr, err := s.nodes[0].n.BC.GetEnrollments(); err == nil {
+						for _, e := range enr {
+							for a := 0; a < numAccounts; a++ {
+								if s.r.prod.kr.accts[a].PublicKey().StringCompressed() == e.Key.StringCompressed() {
+									s.r.log.Addf("  candidate a%d votes %s", a, e.Votes)
+								}
+							}
+						}
+					}
+				}
+				s.r.log.Addf("t=%dms the validators of the next block are no longer the standby ones: %v (all run by nodes: %v)", s.now()/time.Millisecond, who, !s.uncovered)
+			}
+		}
+	}
 	for _, v := range s.nodes {
 		if v.n.closed {
 			continue
@@ -666,6 +761,10 @@ func (s *netSim) checkAgreement() {
 				if s.firstBlockAt == 0 {
 					s.firstBlockAt = s.now()
 				}
+				if s.lastBlockAt > 0 {
+					s.maxGap = max(s.maxGap, s.now()-s.lastBlockAt)
+				}
+				s.lastBlockAt = s.now()
 				s.r.log.Addf("t=%dms height %d = %s (first on node %d)", s.now()/time.Millisecond, x, hh.StringLE()[:8], v.idx)
 			}
 			sr, err := v.n.BC.GetStateRoot(x)
@@ -730,6 +829,10 @@ func (r *run) runNet() {
 	// consensus services
 	vals, _ := r.P.BC.GetNextBlockValidators()
 	sort.Sort(keys.PublicKeys(vals))
+	s.standby = fmt.Sprint(keys.PublicKeys(vals))
+	for i := 0; i < np.Validators; i++ {
+		s.standbyKeys = append(s.standbyKeys, vals[i].StringCompressed())
+	}
 	for i := 0; i < np.Validators; i++ {
 		v := s.nodes[i]
 		pk := r.prod.kr.byPub[vals[i].StringCompressed()]
@@ -748,6 +851,17 @@ func (r *run) runNet() {
 			sim.Harnessf("wallet encrypt: %v", err)
 		}
 		w.AddAccount(acc)
+		if np.Election {
+			ck, err := keys.NewPrivateKeyFromBytes(r.prod.kr.accts[2+i].Bytes())
+			if err != nil {
+				sim.Harnessf("key copy: %v", err)
+			}
+			acc2 := wallet.NewAccountFromPrivateKey(ck)
+			if err := acc2.Encrypt("pass", w.Scrypt); err != nil {
+				sim.Harnessf("wallet encrypt: %v", err)
+			}
+			w.AddAccount(acc2)
+		}
 		if err := w.Save(); err != nil {
 			sim.Harnessf("wallet save: %v", err)
 		}
@@ -816,6 +930,12 @@ func (r *run) runNet() {
 			}
 		}
 	})
+	if np.Election {
+		s.scheduleElection()
+	}
+	if r.prop == "C17" {
+		s.scheduleChatter()
+	}
 	// planned events: client transactions, observer restarts, periodic sync offers
 	for i := range np.Txs {
 		t := np.Txs[i]
@@ -836,7 +956,7 @@ func (r *run) runNet() {
 	const quantum = 25 * time.Millisecond
 	for r.fail == nil {
 		if s.now() >= end {
-			if np.HealMS == 0 || s.healedIn > 0 {
+			if np.HealMS == 0 || s.healedIn > 0 || s.uncovered {
 				break
 			}
 			if !s.healed {
@@ -919,6 +1039,54 @@ func (r *run) newNetNode(name string, l Local) *Node {
 	return n
 }
 
+// scheduleElection: once the accounts are funded all of them register as candidates, later everybody votes.
+func (s *netSim) scheduleElection() {
+	r := s.r
+	funded := func() bool {
+		for i := 0; i < numAccounts; i++ {
+			if r.P.BC.GetUtilityTokenBalance(r.prod.kr.acctHash(i), util.Uint160{}).Sign() <= 0 {
+				return false
+			}
+		}
+		return true
+	}
+	send := func(ops []Op) {
+		for _, o := range ops {
+			var tx *transaction.Transaction
+			if v := sim.Recover(func() { tx, _ = r.prod.buildTx(o, nil) }); v != nil || tx == nil {
+				continue
+			}
+			s.sendToTargets(tx, 0xff)
+		}
+	}
+	var stage1, stage2 func()
+	tries := 0
+	stage1 = func() {
+		if !funded() {
+			if tries++; tries < 8 {
+				s.at(s.now()+blockTimeMS*time.Millisecond, stage1)
+			}
+			return
+		}
+		var ops []Op
+		for i := 0; i < numAccounts; i++ {
+			ops = append(ops, Op{Kind: OpRegister, A: i, Y: 1})
+		}
+		send(ops)
+		r.out.Probes["net_election_registered"]++
+		s.at(s.now()+2500*time.Millisecond, stage2)
+	}
+	stage2 = func() {
+		var ops []Op
+		for i := 0; i < numAccounts; i++ {
+			ops = append(ops, Op{Kind: OpVote, A: i, B: i, X: 0, Y: 1})
+		}
+		send(ops)
+		r.out.Probes["net_election_voted"]++
+	}
+	s.at(3000*time.Millisecond, stage1)
+}
+
 // syncOffer: a node that is behind is offered the next missing block by a node that has it.
 func (s *netSim) syncOffer() {
 	top := uint32(0)
@@ -983,7 +1151,7 @@ func (s *netSim) finalNet() {
 		r.out.Probes["runs_with_blocks"]++
 	}
 	r.log.Addf("end: heights %d..%d puts=%d", minH, maxH, s.puts)
-	if s.healed {
+	if s.healed && !s.uncovered {
 		// bounded liveness once faults stop: all validators honest, every message delivered within 240 ms from healAt on
 		switch {
 		case s.healedIn == 0:
@@ -1012,7 +1180,23 @@ func (s *netSim) finalNet() {
 		_ = k
 		views += c * 0
 	}
-	if s.np.Sync && s.np.CorruptPM == 0 {
+	if s.np.Sync && s.np.CorruptPM == 0 && !s.uncovered {
+		// blocks KEEP being produced: no long pause between two heights, nor after the last one
+		gap := max(s.maxGap, time.Duration(s.np.DurationMS)*time.Millisecond-s.lastBlockAt)
+		switch {
+		case gap <= 2*blockTimeMS*time.Millisecond:
+			r.out.Probes["sync_max_block_gap_le_2"]++
+		case gap <= 4*blockTimeMS*time.Millisecond:
+			r.out.Probes["sync_max_block_gap_le_4"]++
+		case gap <= 8*blockTimeMS*time.Millisecond:
+			r.out.Probes["sync_max_block_gap_le_8"]++
+		default:
+			r.out.Probes["sync_max_block_gap_gt_8"]++
+			if s.lastBlockAt > 0 && gapAssert {
+				r.violate(sim.Violatef("liveness", "liveness/gap", "synchronous configuration (no loss, no silence, delays <= %d ms): %d ms passed without a new block (last new height at %d ms, run ends at %d ms, validators rotated at %d ms)", s.np.MaxDelayMS, gap/time.Millisecond, s.lastBlockAt/time.Millisecond, s.np.DurationMS, s.rotatedAt/time.Millisecond))
+				return
+			}
+		}
 		// liveness under synchrony (a corrupted message is a lost message: not synchronous): >= 5 blocks within 20 block times on every ledger
 		if minH < 5 {
 			r.violate(sim.Violatef("liveness", "liveness/blocks", "synchronous configuration (no loss, no silence, delays <= %d ms): after %d ms the slowest ledger is at height %d (fastest %d)", s.np.MaxDelayMS, s.np.DurationMS, minH, maxH))
